@@ -52,6 +52,13 @@ pub struct HostScript {
     pub defer_default: Option<Answer>,
     /// override for the k-th callback of the run (0-based, all kinds counted together)
     pub nth_override: BTreeMap<usize, Answer>,
+    /// a host that answers an offered Apply / EmptyApply by running an expression of its own inside the callback
+    /// (push input, push frame, step until the frame returns) leaves the instruction cursor on the instruction
+    /// after the apply. This flag reproduces exactly that residue: when it accepts such an offer the host also
+    /// sets the cursor to the next instruction. (For every other offered instruction the shipped executor
+    /// reads the cursor after the callback, so a host may not move it there; the flag is inert for those.)
+    #[serde(default)]
+    pub leaves_cursor_after_apply: bool,
 }
 
 #[derive(Clone, Debug, PartialEq, Eq, Hash, Serialize, Deserialize)]
@@ -274,6 +281,12 @@ pub fn host_defer<D: GD + HasHost>(data: &mut D, op: Instruction, left: (Garnish
         }
     };
     let r = perform(data, &answer);
+    if data.host().script.leaves_cursor_after_apply && matches!(op, Instruction::Apply | Instruction::EmptyApply) && matches!(r, Ok((true, _))) {
+        let next = data.get_instruction_cursor() + 1;
+        if next < data.get_instruction_len() {
+            let _ = data.set_instruction_cursor(next);
+        }
+    }
     let (ok, gave) = match &r {
         Ok((b, g)) => (if *b { "accept" } else { "decline" }, g.clone()),
         Err(_) => ("fail", None),
